@@ -3,6 +3,7 @@ CONSTANTS
   KeyIds = {1, 2, 3}
   MaxCmds = 6
   CountOwnKeysOnly = TRUE
+  CrossAppends = FALSE
 VIEW view
-INVARIANTS PlainSignSelfVerifies EditsClearSigs
+INVARIANTS PlainSignSelfVerifies EditsClearSigs NoStaleEntries
 CHECK_DEADLOCK FALSE
